@@ -87,7 +87,7 @@ def run(chk):
 
     # ------------------------------------------------------------------ R3 one reply per command
     r3 = chk.rule("C01.R3", "each call consumes exactly the reply the protocol defines for its own commands: it returns only after the last line of that reply and never asks for more (every public method, 0/1/2 keys, evaluated end to end against scripted replies)")
-    reply_consumption(prog, r3)
+    reply_consumption(prog, r3, tier=chk.tier)
 
     # ------------------------------------------------------------------ R4 no bytes survive a call
     r4 = chk.rule("C01.R4", "exchange functions and readers keep receive state in locals only (no attribute or module-level writes)")
@@ -167,7 +167,7 @@ def verdict(rule, offending, what, construct, msg, fn):
         rule.undecided(construct, "%s -- %s (on a path through a loop over an iterable the analysis does not know)" % (what, msg))
 
 
-def reply_consumption(prog, r3):
+def reply_consumption(prog, r3, tier="quick"):
     """For every public method of Client that talks to the server and every reply script of spec.CALL_SCRIPTS:
     with the full reply the method returns having read all of it and nothing beyond; with the reply cut before its last
     item it does not return; with noreply it reads nothing."""
@@ -178,6 +178,8 @@ def reply_consumption(prog, r3):
     n_scripts = 0
     for m in methods:
         scripts = spec.CALL_SCRIPTS.get(m.name)
+        if scripts is not None and tier == "thorough":
+            scripts = list(scripts) + spec.CALL_SCRIPTS_THOROUGH.get(m.name, [])
         if scripts is None:
             r3.fail("Client.%s:no-reply-script" % m.name, "Client.%s sends a command but pmcsa/spec.py defines no protocol reply for it: add the method to CALL_SCRIPTS" % m.name, fn=m)
             continue
